@@ -16,6 +16,8 @@ impl InstructionGenerator {
     pub fn visit_redim_list(&mut self, item: DimList) {
         let DimList { shared, variables } = item;
         for dim_var_pos in variables {
+            // REDIM of a SHARED array of the module inside a subprogram
+            let shared = shared || self.is_shared_array_of_module(&dim_var_pos.element);
             self.visit_dim_var_pos(dim_var_pos, true, shared);
         }
     }
@@ -45,6 +47,25 @@ impl InstructionGenerator {
 }
 
 impl InstructionGenerator {
+    fn is_shared_array_of_module(&self, dim_var: &DimVar) -> bool {
+        if self.current_subprogram == ScopeName::Global {
+            return false;
+        }
+        if let DimType::Array(_, box_element_type) = dim_var.var_type() {
+            let opt_q = match box_element_type.expression_type() {
+                ExpressionType::BuiltIn(q) => Some(q),
+                ExpressionType::FixedLengthString(_) => Some(TypeQualifier::DollarString),
+                _ => None,
+            };
+            let name = Name::new(dim_var.as_bare_name().clone(), opt_q);
+            self.linter_names
+                .get_resolved_variable_info(&self.current_subprogram, &name)
+                .shared
+        } else {
+            false
+        }
+    }
+
     fn is_in_static_subprogram(&self) -> bool {
         if self.current_subprogram == ScopeName::Global {
             false
